@@ -376,9 +376,12 @@ package memfs
 //@   requires DirInv(d)
 //@   modifies $none
 //@   ensures fresh(arr(result)) && len(result) == len(d.nodes) && forall(k, 0 <= k && k < len(result) ==> result[k] == d.nodes[k])
+// C09: also under interleaving the listing is the caller's own array, never a view of the live one
+//@   conc_ensures [C09] fresh(arr(result))
 //@ func (*File).getData [C01 C09]
 //@   modifies $none
 //@   ensures (fresh(arr(result)) || len(result) == 0) && len(result) == len(f.data) && forall(k, 0 <= k && k < len(result) ==> result[k] == f.data[k])
+//@   conc_ensures [C09] fresh(arr(result)) || len(result) == 0
 //@ func (*File).setData [C01 C09]
 //@   modifies memfs.File.data, memfs.File.time
 //@   ensures f.data == data
